@@ -417,6 +417,8 @@ PROPS['C17']['rules'] += [R2.rule_uc_kinds, R2.rule_adjacency_all_records]
 PROPS['C18']['rules'] += [R2.rule_converter_every_field]
 PROPS['C20']['rules'] += [rules_table.rule_or_errcheck]
 PROPS['C07']['rules'] += [R2.rule_loop_rebind]
+PROPS['C05']['rules'] += [R2.rule_empty_accumulation, R2.rule_all_kinds_scanned]
+PROPS['C11']['rules'] += [R2.rule_empty_accumulation]
 for _p in PROPS.values():
     for _k, _v in R2.RULE_TEXT.items():
         _p['rule_texts'].setdefault(_k, ' '.join(_v.split()))
